@@ -275,6 +275,78 @@ def _tables_and_domains(res, index):
 
 
 # --------------------------------------------------------------------------------------------- uniform families
+def _derived_planes(fn, r, ngons, it):
+    """n-gons obtained from a returned n-gon by overwriting its z column (`top = bottom.copy(); top[:, 2] = h / 2`): a store
+    into a fresh copy adds a plane with the same area and angle, a store into the returned array itself moves that plane.
+    Any other element store / in-place update of an n-gon array is outside the fragment (-> None, no verdict)."""
+    from ..astutil import single_assignments
+    leaves = [e for e in r["events"] if e.type == "leave" and e.f.get("value") is not None
+              and ("ret", "_make_ngon") in e.value.tags and len(e.path) <= 2]
+    if len(leaves) != len(ngons):
+        return ngons
+    ids = {it.val_id(e.value): i for i, e in enumerate(leaves)}
+    if len(ids) != len(ngons):
+        return ngons
+    env1 = dict(single_assignments(fn.node))
+    # a local that is bound once and then has elements stored into it is still bound once
+    binds = {}
+    for n_ in ast.walk(fn.node):
+        if isinstance(n_, ast.Assign):
+            for t_ in n_.targets:
+                for x_ in ([t_] if isinstance(t_, ast.Name) else [y for y in ast.walk(t_) if isinstance(y, ast.Name) and isinstance(y.ctx, ast.Store)]):
+                    binds.setdefault(x_.id, []).append(n_.value if (len(n_.targets) == 1 and isinstance(t_, ast.Name)) else None)
+        elif isinstance(n_, (ast.AugAssign, ast.AnnAssign, ast.For, ast.comprehension, ast.NamedExpr)):
+            for y in ast.walk(n_.target):
+                if isinstance(y, ast.Name) and isinstance(y.ctx, ast.Store):
+                    binds.setdefault(y.id, []).append(None)
+    for k_, v_ in binds.items():
+        if len(v_) == 1 and v_[0] is not None:
+            env1.setdefault(k_, v_[0])
+    out = [dict(a) for a in ngons]
+
+    def ngon_of(v):
+        return ids.get(it.val_id(v)) if v is not None else None
+
+    touched = False
+    for e in r["events"]:
+        if len(e.path) > 1:
+            continue
+        if e.type == "local-store" and ngon_of(e.f.get("base")) is not None:
+            touched = True
+            i = ngon_of(e.base)
+            idx = e.index
+            col2 = idx.kind == "indextuple" and idx.items and len(idx.items) == 2 and idx.items[0].kind == "slice" \
+                and idx.items[0].extra is not None and idx.items[0].extra.lower is None and idx.items[0].extra.upper is None \
+                and idx.items[0].extra.step is None and idx.items[1].has_const() and idx.items[1].const in (2, -1)
+            if not col2 or not isinstance(e.node, ast.Assign) or e.value.sym is None:
+                return None
+            if ("ret", "_make_ngon") in e.base.tags:
+                out[i] = dict(out[i], z=e.value, __moved=True)            # the returned array itself is moved
+                continue
+            src = env1.get(e.name)
+            is_copy = isinstance(src, ast.Call) and (
+                (isinstance(src.func, ast.Attribute) and src.func.attr == "copy" and isinstance(src.func.value, ast.Name))
+                or (ast.unparse(src.func) in ("np.copy", "numpy.copy", "np.array", "numpy.array") and src.args and isinstance(src.args[0], ast.Name)
+                    and not any(k.arg == "copy" for k in src.keywords)))
+            if not is_copy:
+                return None
+            if any(o.get("__copy_of") == e.name for o in out):
+                return None                                  # stored twice into the same copy
+            out.append(dict(ngons[i], z=e.value, __copy_of=e.name))
+    if not touched:
+        # an in-place update of an n-gon array that is not a plain element store
+        for n_ in ast.walk(fn.node):
+            if isinstance(n_, ast.AugAssign) and isinstance(n_.target, (ast.Subscript, ast.Name)):
+                b_ = n_.target.value if isinstance(n_.target, ast.Subscript) else n_.target
+                if isinstance(b_, ast.Name) and isinstance(env1.get(b_.id), ast.Call) and "_make_ngon" in ast.unparse(env1[b_.id]):
+                    return None
+        return ngons
+    for n_ in ast.walk(fn.node):
+        if isinstance(n_, ast.AugAssign) and isinstance(n_.target, (ast.Subscript, ast.Name)):
+            return None
+    return out
+
+
 def _uniform(res, index):
     mod = index.module(COMMON)
     n_atom = Poly.atom("n")
@@ -300,6 +372,7 @@ def _uniform(res, index):
                     a[names[i]] = v
                 a.update(e.kwvals)
                 ngons.append(a)
+        ngons = _derived_planes(fn, r, ngons, it)
         return c, fn, env, ngons, r
 
     def sym(env, k):
@@ -313,7 +386,7 @@ def _uniform(res, index):
         return z.sym
 
     def area_of(ngons):
-        a_ = ngons[0].get("area") if ngons else None
+        a_ = ngons[0].get("area") if ngons else None          # (None: outside the fragment)
         return a_.sym if a_ is not None else None
 
     def apex_rows(env):
@@ -330,7 +403,10 @@ def _uniform(res, index):
     c, fn, env, ngons, r = analyse("UniformPrismFamily")
     where = f"{fn.file}:{fn.lineno}"
     area = area_of(ngons)
-    if area is None or len(ngons) != 2:
+    if area is not None and len(ngons) == 1 and ngons[0].get("__moved"):
+        _verdict(res, False, "UV-1", "UniformPrismFamily", where, "area*h = V with two equal n-gons at -h/2 and +h/2",
+                 f"one n-gon array only, whose z column is overwritten in place (z = {zsym(ngons[0])}): both faces are the same rows")
+    elif area is None or len(ngons or ()) != 2:
         res.not_in_fragment.append("UV-1 prism")
     else:
         h = zsym(ngons[1]) - zsym(ngons[0])
@@ -343,7 +419,7 @@ def _uniform(res, index):
     where = f"{fn.file}:{fn.lineno}"
     area = area_of(ngons)
     apx = [zs for zs in apex_rows(env) if len(zs) == 1]
-    if area is None or len(ngons) != 1 or len(apx) != 1:
+    if area is None or len(ngons or ()) != 1 or len(apx) != 1:
         res.not_in_fragment.append("UV-1 pyramid")
     else:
         az = apx[0][0]
@@ -357,7 +433,7 @@ def _uniform(res, index):
     where = f"{fn.file}:{fn.lineno}"
     area = area_of(ngons)
     apx = [zs for zs in apex_rows(env) if len(zs) == 2]
-    if area is None or len(ngons) != 1 or len(apx) != 1:
+    if area is None or len(ngons or ()) != 1 or len(apx) != 1:
         res.not_in_fragment.append("UV-1 dipyramid")
     else:
         zs = apx[0]
@@ -369,7 +445,7 @@ def _uniform(res, index):
     c, fn, env, ngons, r = analyse("UniformAntiprismFamily")
     where = f"{fn.file}:{fn.lineno}"
     area = area_of(ngons)
-    if area is None or len(ngons) != 2:
+    if area is None or len(ngons or ()) != 2:
         res.not_in_fragment.append("UV-1 antiprism")
     else:
         tan_pn = Poly.atom(f"tan<{(Poly.atom('pi') * n_atom.pow(-1))!r}>")
@@ -385,7 +461,7 @@ def _uniform(res, index):
     # regular n-gon
     c, fn, env, ngons, r = analyse("RegularNGonFamily")
     where = f"{fn.file}:{fn.lineno}"
-    if len(ngons) != 1:
+    if len(ngons or ()) != 1:
         res.not_in_fragment.append("UV-1 n-gon")
     else:
         a = ngons[0]
@@ -494,13 +570,15 @@ def _verdict(res, ok, rule, key, where, what, detail):
 def _doi(res, index):
     mod = index.module("coxeter.families.doi_data_repositories")
     init = index.module("coxeter.families")
+    # the DOIs the module knows: the DOI-like keys of its module-level literal tables (whatever their number and layout)
     keys = set()
-    for nm in ("_DOI_TO_FILE", "_DOI_TO_FAMILY"):
-        node = mod.constants.get(nm)
-        if node is None or not isinstance(node, ast.Dict):
-            raise AnalysisError(f"anchor vanished: {nm}")
-        for k in node.keys:
-            keys.add(ast.literal_eval(k))
+    for nm, node in mod.constants.items():
+        if isinstance(node, ast.Dict):
+            for k in node.keys:
+                if isinstance(k, ast.Constant) and isinstance(k.value, str) and re.match(r"^10\.\d{4,}/\S+$", k.value):
+                    keys.add(k.value)
+    if not keys:
+        raise AnalysisError("anchor vanished: no module-level table keyed by DOI in doi_data_repositories")
     # documented DOIs: the string following DOI_SHAPE_REPOSITORIES in families/__init__.py
     doc = ""
     body = init.tree.body
@@ -517,13 +595,31 @@ def _doi(res, index):
     else:
         res.ok("DOI-1", "doi-maps", sample={"dois": sorted(keys)})
     # the documented families per DOI
-    fam = mod.constants["_DOI_TO_FAMILY"]
-    got = {ast.literal_eval(k): [ast.unparse(e) for e in v.elts] for k, v in zip(fam.keys, fam.values)}
-    want = {"10.1103/PhysRevX.4.011024": ["Family323Plus", "Family423", "Family523"], "10.1021/nn204012y": ["TruncatedTetrahedronFamily"]}
-    if got == want:
+    # ... decided on what the factory constructs for each DOI (abstract run with the DOI as a constant argument: lookups in
+    # the literal tables, loops and comprehensions over their entries are evaluated entry by entry), not on the tables' layout
+    from ..values import vconst
+    fac0 = mod.functions.get("_doi_shape_collection_factory")
+    if fac0 is None:
+        raise AnalysisError("anchor vanished: _doi_shape_collection_factory")
+    want = {"10.1103/PhysRevX.4.011024": ["Family323Plus", "Family423", "Family523"], "10.1021/nn204012y": ["TruncatedTetrahedronFamily"],
+            "10.1126/science.1220869": []}
+    got = {}
+    tab = {}
+    for doi in sorted(set(want) | keys) + ["10.0000/not-a-known-doi"]:
+        it_ = Interp(index, config={"fold_branches": True})
+        r_ = it_.run_entry(fac0, None, args={fac0.params[0]: vconst(doi)})
+        cons = [e for e in r_["events"] if e.type == "construct"]
+        got[doi] = [e.cls.name for e in cons if len(e.path) == 1 and e.cls.name != "TabulatedGSDShapeFamily"]
+        tab[doi] = sum(1 for e in cons if e.cls.name == "TabulatedGSDShapeFamily")
+    unknown = got.pop("10.0000/not-a-known-doi")
+    tab_unknown = tab.pop("10.0000/not-a-known-doi")
+    if unknown or tab_unknown:
+        raise AnalysisError("DOI-1: the factory constructs families for a DOI that is in no table: its lookups are not evaluated exactly")
+    if got == want and tab["10.1126/science.1220869"] >= 1 and not tab["10.1103/PhysRevX.4.011024"] and not tab["10.1021/nn204012y"]:
         res.ok("DOI-1", "doi-families")
     else:
-        res.bad("DOI-1", "doi-families", where, f"_DOI_TO_FAMILY = {got}, documented {want}")
+        res.bad("DOI-1", "doi-families", where, f"the factory builds {got} (tabulated families per DOI: {tab}), documented {want} with one tabulated "
+                "family for 10.1126/science.1220869 only")
     fac = mod.functions.get("_doi_shape_collection_factory")
     if fac is None:
         raise AnalysisError("anchor vanished: _doi_shape_collection_factory")
